@@ -211,8 +211,10 @@ int sp_ienv(int ispec)
 
 /* ======================================================================= events */
 static int G_evdebug; static __thread int T_zp_nocand; static __thread long T_ev[6]; static __thread int T_ev_first[6];
+static __thread long T_layout_bad, T_layout_seen; static __thread int T_layout_type;   /* sticky for the whole case (modules reset the other counters mid-case) */
 void slu_verif_event(int kind, int a, int b)
 {
+    if (kind == 5) { T_layout_seen++; if (a && T_layout_bad++ == 0) T_layout_type = b; if (G_evdebug) fprintf(stderr, "EV5 bad=%d type=%d\n", a, b); return; }
     (void)b; if (kind < 1 || kind > 4) return;
     if (kind == 4) { if (b >= 16) T_ev[VF_EV_WS_GROWTH]++; if (G_evdebug) fprintf(stderr, "EV4 overlap=%d type=%d\n", a, b);
         /* an in-flight growth of UCOL books USUB's share as well and is legitimately over-committed until the USUB call that follows has checked it */
@@ -245,6 +247,7 @@ long vf_cap_calls(void) { return T_cap_calls; }
 void vf_events_reset(void) { for (int i = 0; i < 6; i++) { T_ev[i] = 0; T_ev_first[i] = -1; } T_zp_nocand = 0; }
 int vf_zero_pivot_without_candidate(void) { return T_zp_nocand; }
 long vf_events_count(int k) { return T_ev[k]; }
+long vf_layout_checks(void) { return T_layout_seen; }
 int  vf_events_first(int k) { return T_ev[k] ? T_ev_first[k] : -1; }
 
 /* ======================================================================= worker state, output */
@@ -431,8 +434,14 @@ int main(int argc, char **argv)
         vf_ledger_reset_counters(); vf_events_reset(); vf_cap_set(0, 0, 0); vf_fault_arm(NULL, 0); vf_ienv_default();
         vf_set_junk((int)(rng_u64(&c.rng) % 4 == 0 ? 256 : (int[]){ 0x00, 0xFF, 0xA5 }[i % 3]));
         struct itimerval it = { { 0, 0 }, { cpu, 0 } }; setitimer(ITIMER_PROF, &it, NULL);
+        T_layout_bad = T_layout_seen = 0;
         fn(&c);
         struct itimerval off = { { 0, 0 }, { 0, 0 } }; setitimer(ITIMER_PROF, &off, NULL);
+        /* guarded hook 5 (invariant of the live data structure, evaluated by the library at every growth in flight inside a caller
+           workspace): the four growable arrays lie in order, without overlap, below the stack head. Owned by the storage properties. */
+        if (T_layout_bad > 0 && (!strcmp(prop, "C07") || !strcmp(prop, "C08") || !strcmp(prop, "C19")))
+            vf_viol(&c, "workspace-layout-broken", "%ld of %ld growths in flight inside a caller workspace left the four factor arrays out of order, overlapping or beyond the recorded stack head (first: growth of array type %d): the library's accounting of the workspace no longer covers what it uses", T_layout_bad, T_layout_seen, T_layout_type);
+        if (T_layout_seen > 0) vf_tag(&c, "layout-checked");
         emit_case(&c);
         if (vf_ledger_live() > 0) vf_ledger_purge();
 #if !defined(__SANITIZE_ADDRESS__) && !defined(VF_MSAN)
